@@ -20,6 +20,7 @@ import (
 	"testing"
 	"time"
 
+	pt "git.torproject.org/pluggable-transports/goptlib.git"
 	"git.torproject.org/pluggable-transports/snowflake.git/v2/common/event"
 	"git.torproject.org/pluggable-transports/snowflake.git/v2/common/messages"
 	"git.torproject.org/pluggable-transports/snowflake.git/v2/common/util"
@@ -31,6 +32,9 @@ func TestC15VerifDriver(t *testing.T) {
 	if os.Getenv("VERIF_DRIVER") != "1" {
 		t.Skip("driver only")
 	}
+	// the rendering listener below writes pluggable-transport LOG lines as the client binary does:
+	// keep them off the result stream
+	pt.Stdout = io.Discard
 	wire.Loop(c15Dispatch)
 	os.Exit(0)
 }
@@ -437,9 +441,17 @@ func c15Unfinished(l []*c15Thread) int {
 
 // ---------------------------------------------------------------- connect
 
+// c15Events is the event listener of every connect / close / retry scenario.  It records a token per
+// event and then does with the event exactly what the listener of the client binary does
+// (client/snowflake.go ptEventLogger.OnNewSnowflakeEvent: pt.Log(pt.LogSeverityNotice, e.String())).
+// Listeners run on the goroutine that emits the event - for everything emitted by connect that is the
+// collecting goroutine of connectLoop - so a panic in the rendering ends the client process: it is
+// caught here and reported as term=1.
 type c15Events struct {
-	mu  sync.Mutex
-	log []string
+	mu     sync.Mutex
+	log    []string
+	term   int // renderings that panicked
+	nilerr int // failure events without an error
 }
 
 func (e *c15Events) OnNewSnowflakeEvent(ev event.SnowflakeEvent) {
@@ -453,10 +465,34 @@ func (e *c15Events) OnNewSnowflakeEvent(ev event.SnowflakeEvent) {
 	case event.EventOnSnowflakeConnected:
 		e.log = append(e.log, "connected")
 	case event.EventOnSnowflakeConnectionFailed:
-		e.log = append(e.log, "failed")
+		if v.Error == nil {
+			e.nilerr++
+			e.log = append(e.log, "failed?nil")
+		} else {
+			e.log = append(e.log, "failed")
+		}
 	default:
 		e.log = append(e.log, "other")
 	}
+	defer func() {
+		if r := recover(); r != nil {
+			e.term++
+		}
+	}()
+	pt.Log(pt.LogSeverityNotice, ev.String())
+}
+
+func (e *c15Events) snapshot() (log []string, term, nilerr int) {
+	e.mu.Lock()
+	defer e.mu.Unlock()
+	return append([]string(nil), e.log...), e.term, e.nilerr
+}
+
+func c15Bit(n int) int {
+	if n > 0 {
+		return 1
+	}
+	return 0
 }
 
 func c15ErrTag(err error) string {
@@ -628,9 +664,8 @@ func c15RunConnect(iceKind, rvKind string) string {
 	if rv.remote != nil {
 		rv.remote.Close()
 	}
-	ev.mu.Lock()
-	out += " events=" + wire.PrintList(ev.log)
-	ev.mu.Unlock()
+	evlog, term, _ := ev.snapshot()
+	out += " events=" + wire.PrintList(evlog)
 	out += " rv=" + strconv.Itoa(rv.calls)
 	// everything acquired for the attempt must have been released: no goroutine of the
 	// peer connection survives
@@ -640,7 +675,7 @@ func c15RunConnect(iceKind, rvKind string) string {
 	} else {
 		out += " leak=0"
 	}
-	return out
+	return out + " term=" + strconv.Itoa(c15Bit(term))
 }
 
 // ---------------------------------------------------------------- closing a connection (exported API)
@@ -680,6 +715,8 @@ func (r *c15Remote) open() bool {
 
 type c15Broker struct {
 	kind     string
+	failKind string // retry scenarios: how the first failN polls fail; poll failN+1 is answered by a proxy
+	failN    int
 	srv      *httptest.Server
 	mu       sync.Mutex
 	times    []time.Time // arrival of every poll
@@ -765,6 +802,13 @@ func (b *c15Broker) poll(w http.ResponseWriter, req *http.Request) {
 	b.mu.Unlock()
 	var resp []byte
 	var err error
+	if b.kind == "retry" {
+		b.mu.Lock()
+		n := len(b.times)
+		b.mu.Unlock()
+		b.retryPoll(w, body, n)
+		return
+	}
 	if first && (b.kind == "hold" || b.kind == "holdgood") {
 		select {
 		case <-b.release:
@@ -772,7 +816,7 @@ func (b *c15Broker) poll(w http.ResponseWriter, req *http.Request) {
 		}
 	}
 	if first && (b.kind == "good" || b.kind == "holdgood") {
-		resp, err = b.answer(body)
+		resp, err = b.answer(body, false)
 	} else {
 		resp, err = (&messages.ClientPollResponse{Error: "no snowflake proxies currently available"}).EncodePollResponse()
 	}
@@ -787,8 +831,65 @@ func (b *c15Broker) poll(w http.ResponseWriter, req *http.Request) {
 	w.Write(resp)
 }
 
+// retryPoll answers poll number n (1-based) of a retry scenario.
+func (b *c15Broker) retryPoll(w http.ResponseWriter, body []byte, n int) {
+	done := func() {
+		b.mu.Lock()
+		b.inflight--
+		b.mu.Unlock()
+	}
+	noProxies := func() {
+		resp, _ := (&messages.ClientPollResponse{Error: "no snowflake proxies currently available"}).EncodePollResponse()
+		done()
+		w.Write(resp)
+	}
+	switch {
+	case n > b.failN+1:
+		noProxies()
+	case n == b.failN+1:
+		resp, err := b.answer(body, false)
+		done()
+		if err != nil {
+			w.WriteHeader(http.StatusServiceUnavailable)
+			return
+		}
+		w.Write(resp)
+	case b.failKind == "unreach":
+		// no HTTP answer at all: the connection is dropped
+		done()
+		if hj, ok := w.(http.Hijacker); ok {
+			if c, _, err := hj.Hijack(); err == nil {
+				c.Close()
+				return
+			}
+		}
+		panic(http.ErrAbortHandler)
+	case b.failKind == "refuse":
+		done()
+		w.WriteHeader(http.StatusServiceUnavailable)
+	case b.failKind == "badjson":
+		done()
+		w.Write([]byte("\x00\x01 this is not a poll response"))
+	case b.failKind == "badsdp":
+		resp, _ := (&messages.ClientPollResponse{Answer: `{"type":"answer","sdp":"garbage"}`}).EncodePollResponse()
+		done()
+		w.Write(resp)
+	case b.failKind == "noopen":
+		// the proxy answers and vanishes: its data channel never opens
+		resp, err := b.answer(body, true)
+		done()
+		if err != nil {
+			w.WriteHeader(http.StatusServiceUnavailable)
+			return
+		}
+		w.Write(resp)
+	default:
+		noProxies()
+	}
+}
+
 // answer plays the proxy: a pion peer that accepts the offer and watches the data channel.
-func (b *c15Broker) answer(enc []byte) ([]byte, error) {
+func (b *c15Broker) answer(enc []byte, vanish bool) ([]byte, error) {
 	req, err := messages.DecodeClientPollRequest(enc)
 	if err != nil {
 		return nil, err
@@ -830,6 +931,9 @@ func (b *c15Broker) answer(enc []byte) ([]byte, error) {
 	s, err := util.SerializeSessionDescription(pc.LocalDescription())
 	if err != nil {
 		return nil, err
+	}
+	if vanish {
+		pc.Close()
 	}
 	return (&messages.ClientPollResponse{Answer: s}).EncodePollResponse()
 }
@@ -889,6 +993,13 @@ func c15RunCloseScenario(spec string) string {
 	}
 	max, err := strconv.Atoi(f[0])
 	kind, pre, closes := f[1], f[2], f[3]
+	if closes == "retry" {
+		k, err2 := strconv.Atoi(pre)
+		if err != nil || err2 != nil || max < 1 || k < 0 || k > 8 {
+			return "!badcase"
+		}
+		return c15RunRetryScenario(max, kind, k)
+	}
 	ncalls := map[string]int{"c": 1, "cc": 2, "c2": 2}[closes]
 	okKind := kind == "fail" || kind == "good" || kind == "hold" || kind == "holdgood"
 	okPre := pre == "none" || pre == "sess" || pre == "pconn" || pre == "stream"
@@ -901,6 +1012,8 @@ func c15RunCloseScenario(spec string) string {
 	if err != nil {
 		return "setup=noclient"
 	}
+	ev := &c15Events{}
+	transport.AddSnowflakeEventListener(ev)
 	conn, err := transport.Dial()
 	if err != nil {
 		return "setup=nodial"
@@ -1014,5 +1127,115 @@ collect:
 	time.Sleep(time.Until(last.Add(2*ReconnectTimeout + 2*time.Second)))
 	after := br.pollsAfter(last)
 	late := br.pollsAfter(last.Add(c15Straggle))
-	return fmt.Sprintf("ret=%d/%d;inflight=%d;melt=%d;open=%d;after=%d;late=%d", returned, ncalls, inflight, melt, open, after, late)
+	_, term, nilerr := ev.snapshot()
+	return fmt.Sprintf("ret=%d/%d;inflight=%d;melt=%d;open=%d;after=%d;late=%d;term=%d;nilerr=%d", returned, ncalls, inflight, melt, open, after, late, c15Bit(term), nilerr)
+}
+
+// ---------------------------------------------------------------- failed attempts are retried (exported API)
+//
+// scenario <max>.<failure>.<k>.retry: the first k rendezvous attempts of the connect loop fail in the given
+// way, attempt k+1 meets a proxy (for "ice" the configuration itself is unusable: every attempt fails).
+// NewSnowflakeClient -> Dial; the listener counts the attempts (one EventOnOfferCreated each) and renders every
+// event as the client binary does.  The client has to come round again after each failure (ReconnectTimeout,
+// a constant of 10 s, between attempts; a data channel that never opens takes DataChannelTimeout, another
+// constant of 10 s, by itself) and must in the end hold the peer.  Then the connection is closed.
+// Result: att=<attempts made>;ev=<events, '+'-separated>;peer=<live peers held>;ret=<Close returned>/1;melt=;open=;
+// term=<a rendering panicked>;nilerr=<failure events without an error>
+func c15RunRetryScenario(max int, kind string, k int) string {
+	switch kind {
+	case "ice", "unreach", "refuse", "badjson", "badsdp", "noopen":
+	default:
+		return "!badcase"
+	}
+	br := c15NewBroker("retry")
+	br.failKind, br.failN = kind, k
+	defer br.shutdown()
+	cfg := ClientConfig{BrokerURL: br.srv.URL + "/", KeepLocalAddresses: true, Max: max}
+	if kind == "ice" {
+		cfg.ICEAddresses = []string{""} // what the client binary passes for -ice ""
+	}
+	transport, err := NewSnowflakeClient(cfg)
+	if err != nil {
+		return "setup=noclient"
+	}
+	ev := &c15Events{}
+	transport.AddSnowflakeEventListener(ev)
+	conn, err := transport.Dial()
+	if err != nil {
+		return "setup=nodial"
+	}
+	sc := conn.(*SnowflakeConn)
+	defer func() {
+		sc.snowflakes.End()
+		sc.pconn.Close()
+		sc.sess.Close()
+	}()
+	attempts := func() (n int) {
+		log, _, _ := ev.snapshot()
+		for _, t := range log {
+			if strings.HasPrefix(t, "offer") {
+				n++
+			}
+		}
+		return n
+	}
+	var held []*WebRTCPeer
+	live := func() (n int) {
+		h, ok := c15Held(sc.snowflakes, 3*time.Second)
+		if !ok {
+			return 0
+		}
+		held = h
+		for _, p := range h {
+			if !p.Closed() {
+				n++
+			}
+		}
+		return n
+	}
+	// k failed attempts, ReconnectTimeout apart (each of them may take DataChannelTimeout), then the good one
+	patience := time.Duration(k)*(ReconnectTimeout+DataChannelTimeout)/2 + time.Duration(k)*2*time.Second + DataChannelTimeout + 10*time.Second
+	if kind == "ice" {
+		// every attempt fails: wait for attempt k+1 to have been made and reported
+		c15Until(patience, func() bool {
+			log, _, _ := ev.snapshot()
+			return attempts() >= k+1 && len(log) >= k+1
+		})
+	} else {
+		c15Until(patience, func() bool { return br.remoteOpened() >= 1 && live() >= 1 })
+	}
+	// Collect is over when it lets go of the lock: every event of the attempt has been delivered
+	peer := live()
+	att := attempts()
+	log, _, _ := ev.snapshot()
+	evs := "-"
+	if len(log) > 0 {
+		evs = strings.Join(log, "+")
+	}
+	done := make(chan struct{})
+	go func() { conn.Close(); close(done) }()
+	returned := 0
+	select {
+	case <-done:
+		returned = 1
+	case <-time.After(c15CloseBound):
+	}
+	melt := 0
+	select {
+	case <-sc.snowflakes.Melted():
+		melt = 1
+	default:
+	}
+	c15Until(3*time.Second, func() bool { return br.remoteOpen() == 0 })
+	open := 0
+	for _, p := range held {
+		if !p.Closed() {
+			open++
+		}
+	}
+	if n := br.remoteOpen(); n > open {
+		open = n
+	}
+	_, term, nilerr := ev.snapshot()
+	return fmt.Sprintf("att=%d;ev=%s;peer=%d;ret=%d/1;melt=%d;open=%d;term=%d;nilerr=%d", att, evs, peer, returned, melt, open, c15Bit(term), nilerr)
 }
